@@ -253,9 +253,9 @@ def check_C06(nodes, R, full=True):
     return None
 
 
-def check_C15(nodes, R, others):
+def check_C15(nodes, R, others, w=None):
     import anytree
-    w = anytree.Walker()
+    w = w or anytree.Walker()
     for a in nodes:
         for b in nodes:
             pa, pb = R.path(a), R.path(b)
@@ -421,7 +421,37 @@ def run_shape(prop, shape, family, full=True):
         other = build(((),), cls, pfx)
         for o in other:
             o.name = "other_" + o.name
-        return check_C15(nodes, R, other)
+        bad = check_C15(nodes, R, other)
+        if bad:
+            return bad
+        # the statement is about the tree as it is at the call: walk every pair (fills any cache on the nodes or on the
+        # walker), change one link through the public API, and compare again with the definition over the raw links
+        import anytree
+        for a in range(len(nodes)):
+            for b in [None] + list(range(len(nodes))):
+                ns = build(shape, cls, pfx)
+                R0 = Ref(ns, pfx)
+                R0.pfx = pfx
+                w = anytree.Walker()
+                if check_C15(ns, R0, (), w):
+                    continue
+                try:
+                    ns[a].parent = ns[b] if b is not None else None
+                except Exception:
+                    continue
+                R1 = Ref(ns, pfx)
+                R1.pfx = pfx
+                if b is None:
+                    # a detached subtree: pairs across the two trees must raise WalkError, pairs inside each are checked
+                    sub = R1.pre(ns[a])
+                    rest = [x for x in ns if not any(x is y for y in sub)]
+                    bad = (check_C15(sub, R1, rest, w) if rest else None) or (check_C15(rest, R1, sub, w) if rest else check_C15(sub, R1, (), w))
+                else:
+                    bad = check_C15(ns, R1, (), w)
+                if bad:
+                    bad["after"] = "all pairs walked, then %s.parent = %s" % (ns[a].name, ns[b].name if b is not None else None)
+                    return bad
+        return None
     raise ValueError(prop)
 
 
